@@ -37,6 +37,12 @@ class InternalError(Exception):
     """The machinery itself failed (not a verdict about ferrous)."""
 
 
+class ModelBroken(Exception):
+    """The executable model no longer builds against the tables regenerated from the current sources
+    (an extraction pattern no longer matches, or a generated table contradicts the model's types):
+    the tie to the code is broken before any search can run."""
+
+
 # --------------------------------------------------------------------------
 # PRNG: every random choice of a run derives from one SplitMix64 state.
 # --------------------------------------------------------------------------
@@ -143,6 +149,8 @@ def lake_build(targets, timeout=3600):
 def build_driver(family):
     ok, out = lake_build(["drv_" + family])
     if not ok:
+        if "extraction_failed" in out or "/Gen/" in out or "FerrousSpec.Gen." in out:
+            raise ModelBroken("Lean driver drv_%s does not build against the regenerated tables:\n%s" % (family, out[-3000:]))
         raise InternalError("Lean driver drv_%s does not build:\n%s" % (family, out[-4000:]))
 
 
@@ -243,7 +251,12 @@ def build_harness(family):
                 shutil.rmtree(src_dir)
             shutil.copytree(HARNESS, src_dir, ignore=shutil.ignore_patterns("target"))
             ct = os.path.join(src_dir, "Cargo.toml")
-            open(ct, "w").write(open(ct).read().replace('path = "/repo"', 'path = "%s"' % os.path.realpath(REPO)))
+            text = open(ct).read().replace('path = "/repo"', 'path = "%s"' % os.path.realpath(REPO))
+            open(ct, "w").write(text)
+            cfgp = os.path.join(src_dir, ".cargo", "config.toml")
+            if os.path.exists(cfgp):
+                ctext = re.sub(r'(?m)^target-dir\s*=.*$', 'target-dir = "%s"' % os.path.join(CACHE, "target-harness"), open(cfgp).read())
+                open(cfgp, "w").write(ctext)
             shutil.copy(os.path.join(REPO, "Cargo.lock"), os.path.join(src_dir, "Cargo.lock"))
         lock_src = os.path.join(REPO, "Cargo.lock")
         lock_dst = os.path.join(src_dir, "Cargo.lock")
